@@ -1409,7 +1409,14 @@ func call(n *node) {
 					in[i].Set(value)
 				}
 
-				go callf(in)
+				// The function value is also evaluated by the go statement,
+				// not by the new goroutine: do not read it from its variable there.
+				fn := detachedCopy(bf)
+				if hasVariadicArgs {
+					go fn.CallSlice(in)
+				} else {
+					go fn.Call(in)
+				}
 				return tnext
 			}
 
